@@ -68,8 +68,7 @@ Section Acc.
     | FmtAst.SInferredDecl x v [] => ident_text x = true /\ top_ok (envG B F G) v
     | FmtAst.SAssign (FVar x) v [] => ident_text x = true /\ mem_str x (map fst F) = false /\ top_ok (envG B F G) v
     | FmtAst.SCall n args [] =>
-        ident_text n = true /\ lookup_fn n F <> None /\
-        arity_wrong (envG B F G) n (List.length args) = false /\ Forall (item_ok (envG B F G) true) args
+        ident_text n = true /\ Forall (item_ok (envG B F G) true) args
     | FmtAst.SReturn (Some v) [] => top_ok (envG B F G) v
     | FmtAst.SReturn None [] => True
     | FmtAst.SBreak [] => True
@@ -187,7 +186,34 @@ Section Acc.
   (* ---------- the derivation ---------- *)
   Definition P (st : fstmt) : Prop :=
     forall k inl fr G G', kf k inl fr -> eok G st -> stmt_ok k inl (stmt_tree st) = true ->
-      scope_stmt TB (stmt_tree st) G = Some G' -> sok B F fr G st.
+      stmt_sok B F (stmt_tree st) -> scope_stmt TB (stmt_tree st) G = Some G' -> sok B F fr G st.
+
+  (* the function table is consistent: a function without parameters takes no argument *)
+  Definition tbl_ok : Prop := forall n fi, lookup_fn n F = Some fi -> fi_nil fi = true -> fi_arity fi = Some 0.
+  Hypothesis TOK : tbl_ok.
+
+  Lemma func_of_mk vs n : func_of (mkenv B F vs) n = match lookup_fn n F with Some fi => Some (fi_nil fi) | None => None end.
+  Proof.
+    unfold func_of, mkenv. cbn [e_funcs]. induction F as [|[m f] l IH]; [reflexivity|]. cbn [map lookup_func lookup_fn fst snd].
+    destruct (str_eqb m n); [reflexivity|exact IH].
+  Qed.
+  Lemma arity_mk vs n k : arity_wrong (mkenv B F vs) n k =
+    match lookup_fn n F with Some fi => match fi_arity fi with Some a => negb (Nat.eqb a k) | None => false end | None => false end.
+  Proof.
+    unfold arity_wrong, mkenv. cbn [e_arity]. induction F as [|[m f] l IH]; [reflexivity|]. cbn [map lookup_arity lookup_fn fst snd].
+    destruct (str_eqb m n); [reflexivity|exact IH].
+  Qed.
+
+  (* the call rules of an accepted call statement give what the round trip needs of the table *)
+  Lemma call_table G n (args : list fexpr) : expr_sok B F (TCall n (map fexpr_tree args)) ->
+    exists fi, lookup_fn n F = Some fi /\ arity_wrong (envG B F G) n (List.length args) = false.
+  Proof.
+    intros [vs H]. cbn [tree_ok] in H. destruct H as (Hf & _ & Ha). rewrite func_of_mk in Hf, Ha.
+    destruct (lookup_fn n F) as [fi|] eqn:L; [|contradiction]. exists fi. split; [reflexivity|].
+    unfold envG. rewrite arity_mk, L. destruct Ha as [[Ha _]|[Hnil Hn]].
+    - rewrite arity_mk, L, map_length in Ha. exact Ha.
+    - injection Hn as Hn. rewrite (TOK n fi L Hn). destruct args; [reflexivity|discriminate Hnil].
+  Qed.
 
   Lemma eok_not_empty G st : eok G st -> is_empty_stmt (stmt_tree st) = false.
   Proof. destruct st; try reflexivity; [intro H; exact (match H with end) | destruct ifb; reflexivity]. Qed.
@@ -200,16 +226,17 @@ Section Acc.
 
   Lemma body_derive : forall body, Forall P body -> forall k inl fr G e t Gend, kf k inl fr -> eokb G body ->
     forallb (stmt_ok k inl) (body_trees e body) = true -> dead_ok t (body_trees e body) = true ->
+    Forall (stmt_sok B F) (body_trees e body) ->
     scope_stmts TB (body_trees e body) G = Some Gend -> frame_used Gend -> boks B F fr G t e body.
   Proof.
-    induction 1 as [|x rest Hx _ IH]; intros k inl fr G e t Gend Hk He Hok Hd Hs Hu.
+    induction 1 as [|x rest Hx _ IH]; intros k inl fr G e t Gend Hk He Hok Hd Hso Hs Hu.
     - cbn in Hs. injection Hs as <-. apply boks_nil. exact Hu.
-    - cbn [eokb] in He. cbn [body_trees] in Hok, Hd, Hs. destruct (is_blank x) eqn:Hb.
+    - cbn [eokb] in He. cbn [body_trees] in Hok, Hd, Hs, Hso. destruct (is_blank x) eqn:Hb.
       + rewrite (is_blank_empty x Hb). apply boks_blank. destruct e.
         * eapply IH; eassumption.
-        * cbn [forallb stmt_ok andb] in Hok. cbn [scope_stmts scope_stmt obind] in Hs.
+        * cbn [forallb stmt_ok andb] in Hok. cbn [scope_stmts scope_stmt obind] in Hs. inversion Hso; subst.
           eapply IH; eassumption.
-      + destruct He as [Hex He]. cbn [forallb] in Hok. apply andb_true_iff in Hok as [Hok1 Hok2].
+      + destruct He as [Hex He]. cbn [forallb] in Hok. apply andb_true_iff in Hok as [Hok1 Hok2]. inversion Hso as [|? ? Hso1 Hso2]; subst.
         cbn [scope_stmts] in Hs. destruct (scope_stmt TB (stmt_tree x) G) as [G'|] eqn:Hsc; [|discriminate Hs]. cbn [obind] in Hs.
         unfold dead_ok in Hd. cbn [forallb no_dead] in Hd. rewrite (eok_not_empty G x Hex) in Hd.
         destruct t; [cbn in Hd; discriminate Hd|]. cbn [andb] in Hd.
@@ -221,31 +248,35 @@ Section Acc.
   Proof. destruct b as [|x r]; [contradiction|]. intros _. cbn [body_trees]. destruct (is_blank x); discriminate. Qed.
 
   Lemma branch_derive b : Forall P b -> forall k inl fr l G c Gn, kf k inl fr -> eok_branch G c b ->
-    block_ok k (l || inl) (blk_of (body_trees false b)) = true -> branch_out G c b = Some Gn ->
+    block_ok k (l || inl) (blk_of (body_trees false b)) = true -> block_sok B F (blk_of (body_trees false b)) ->
+    branch_out G c b = Some Gn ->
     exists G1, top_ok (envG B F G) c /\ body_trees false b <> [] /\ use_vars (tvars (fexpr_tree c)) ([] :: G) = Some G1 /\
                boks B F (fr_push l fr) G1 false false b /\ scope_block TB (blk_of (body_trees false b)) G1 = Some Gn.
   Proof.
-    intros Hb k inl fr l G c Gn Hk (Hc & Hne & He) Hok Ho. unfold branch_out in Ho.
+    intros Hb k inl fr l G c Gn Hk (Hc & Hne & He) Hok Hbs Ho. unfold branch_out in Ho.
+    unfold blk_of in Hbs. cbn [block_sok] in Hbs. apply stmts_sok_fix in Hbs.
     destruct (use_vars (tvars (fexpr_tree c)) ([] :: G)) as [G1|] eqn:Hu; [|discriminate Ho]. cbn [obind] in Ho.
     exists G1. split; [exact Hc|]. split; [apply body_trees_ne, Hne|]. split; [reflexivity|]. split; [|exact Ho].
     unfold blk_of in Ho, Hok. rewrite scope_block_eq in Ho.
     destruct (scope_stmts TB (body_trees false b) G1) as [Gend|] eqn:Hs; [|discriminate Ho]. cbn [obind] in Ho.
     destruct (close_used _ _ Ho) as [Hu' _]. cbn [block_ok] in Hok. apply andb_true_iff in Hok as [Hok1 Hok2].
-    apply (body_derive b Hb k (l || inl) (fr_push l fr) G1 false false Gend (kf_push k inl fr l Hk) He Hok1 Hok2 Hs Hu').
+    apply (body_derive b Hb k (l || inl) (fr_push l fr) G1 false false Gend (kf_push k inl fr l Hk) He Hok1 Hok2 Hbs Hs Hu').
   Qed.
 
   Lemma chain_derive els : forall elifs, Forall (Pblock P) elifs -> forall k inl fr G Gm, kf k inl fr ->
     eok_chain els G elifs -> forallb (fun cb => block_ok k inl (snd cb)) (map cb_tree elifs) = true ->
+    Forall (fun cb => block_sok B F (snd cb)) (map cb_tree elifs) ->
     scope_brs TB (map cb_tree elifs) G = Some Gm -> coks B F fr G elifs Gm /\ eok_chain els Gm [].
   Proof.
-    induction 1 as [|[c ch b] r Hx _ IH]; intros k inl fr G Gm Hk He Hok Hs.
+    induction 1 as [|[c ch b] r Hx _ IH]; intros k inl fr G Gm Hk He Hok Hbs Hs.
     - cbn in Hs. injection Hs as <-. split; [constructor | exact He].
     - cbn [eok_chain] in He. destruct ch; [|contradiction]. destruct He as [Hbr He].
       cbn [map forallb cb_tree snd] in Hok. apply andb_true_iff in Hok as [Hok1 Hok2].
       cbn [map scope_brs cb_tree fst snd otv'] in Hs. fold (branch_out G c b) in Hs.
       destruct (branch_out G c b) as [Gn|] eqn:Hbo; [|contradiction]. cbn [obind] in Hs.
-      destruct (branch_derive b Hx k inl fr false G c Gn Hk Hbr Hok1 Hbo) as (G1 & H1 & H2 & H3 & H4 & H5).
-      destruct (IH k inl fr Gn Gm Hk He Hok2 Hs) as [Hco Hel].
+      cbn [map cb_tree snd] in Hbs. inversion Hbs as [|? ? Hbs1 Hbs2]; subst.
+      destruct (branch_derive b Hx k inl fr false G c Gn Hk Hbr Hok1 Hbs1 Hbo) as (G1 & H1 & H2 & H3 & H4 & H5).
+      destruct (IH k inl fr Gn Gm Hk He Hok2 Hbs2 Hs) as [Hco Hel].
       split; [|exact Hel]. eapply coks_cons; eassumption.
   Qed.
 
@@ -254,7 +285,7 @@ Section Acc.
 
   Theorem derive_all : forall st, P st.
   Proof.
-    induction st using fstmt_ind'; intros k inl fr G G' Hk He Hok Hs.
+    induction st using fstmt_ind'; intros k inl fr G G' Hk He Hok Hso Hs.
     - exact (match He with end).
     - (* typed declaration *)
       destruct c; [|exact (match He with end)]. cbn [eok] in He. destruct He as [Hx Ht].
@@ -270,8 +301,8 @@ Section Acc.
       cbn [stmt_tree scope_stmt fexpr_tree tvars] in Hs. destruct (use_vars [_] G) as [G2|] eqn:Hu; [|discriminate Hs].
       apply sok_assign; [exact Hx | exact Hnf | exact (use_one _ G G2 Hu) | exact Hv].
     - (* call *)
-      destruct c; [|exact (match He with end)]. cbn [eok] in He. destruct He as (Hn & Hf & Ha & Hall).
-      destruct (lookup_fn n F) as [fi|] eqn:Hl; [|contradiction]. eapply sok_call; eassumption.
+      destruct c; [|exact (match He with end)]. cbn [eok] in He. destruct He as (Hn & Hall).
+      cbn [stmt_tree stmt_sok] in Hso. destruct (call_table G n a Hso) as (fi & Hl & Ha). eapply sok_call; eassumption.
     - (* return *)
       destruct c; [|destruct v; exact (match He with end)]. cbn [stmt_tree stmt_ok] in Hok.
       destruct v as [v|]; cbn [eok] in He.
@@ -288,21 +319,25 @@ Section Acc.
       rewrite scope_if_eq in Hs. cbn [scope_brs cb_tree fst snd otv'] in Hs. fold TB in Hs. fold (branch_out G c b) in Hs. rewrite Hbo in Hs. cbn [obind] in Hs.
       destruct (scope_brs TB (map cb_tree elifs) Gn) as [Gm|] eqn:Hsb; [|discriminate Hs]. cbn [obind] in Hs.
       cbn [Pblock] in H.
-      destruct (branch_derive b H k inl fr false G c Gn Hk Hbr Hok1 Hbo) as (G1 & B1 & B2 & B3 & B4 & B5).
-      destruct (chain_derive els elifs H0 k inl fr Gn Gm Hk He Hok2 Hsb) as [Hco Hel].
+      rewrite stmt_tree_if in Hso. cbn [stmt_sok] in Hso. destruct Hso as [Hsb1 Hse]. destruct Hsb1 as (_ & Hcb1 & Hcbs). apply (brs_sok_fix B F) in Hcbs. cbn [cb_tree snd] in Hcb1.
+      assert (Hcbs' : Forall (fun cb => block_sok B F (snd cb)) (map cb_tree elifs)) by (eapply Forall_impl; [|exact Hcbs]; intros a Ha; exact (proj2 Ha)).
+      destruct (branch_derive b H k inl fr false G c Gn Hk Hbr Hok1 Hcb1 Hbo) as (G1 & B1 & B2 & B3 & B4 & B5).
+      destruct (chain_derive els elifs H0 k inl fr Gn Gm Hk He Hok2 Hcbs' Hsb) as [Hco Hel].
       cbn [eok_chain] in Hel. destruct els as [[ce eb]|].
       + destruct ce; [|contradiction]. destruct Hel as [Hne Heb].
         unfold blk_of in Hs. rewrite scope_block_eq in Hs.
-        destruct (scope_stmts TB (body_trees false eb) ([] :: Gm)) as [Gend|] eqn:Hse; [|discriminate Hs]. cbn [obind] in Hs.
+        destruct (scope_stmts TB (body_trees false eb) ([] :: Gm)) as [Gend|] eqn:Hse0; [|discriminate Hs]. cbn [obind] in Hs.
         destruct (close_used _ _ Hs) as [Hu' _]. unfold blk_of in Hoke. cbn [block_ok] in Hoke. apply andb_true_iff in Hoke as [Ho1 Ho2].
         eapply sok_if_else; try eassumption; [apply body_trees_ne, Hne|].
-        apply (body_derive eb (H1 [] eb eq_refl) k (false || inl) (fr_push false fr) ([] :: Gm) false false Gend (kf_push k inl fr false Hk) Heb Ho1 Ho2 Hse Hu').
+        unfold blk_of in Hse. cbn [block_sok] in Hse. apply stmts_sok_fix in Hse.
+        apply (body_derive eb (H1 [] eb eq_refl) k (false || inl) (fr_push false fr) ([] :: Gm) false false Gend (kf_push k inl fr false Hk) Heb Ho1 Ho2 Hse Hse0 Hu').
       + eapply sok_if; eassumption.
     - (* while *)
       destruct ch; [|exact (match He with end)]. destruct ce; [|exact (match He with end)].
       rewrite eok_while in He. rewrite stmt_tree_while in Hok, Hs. cbn [stmt_ok] in Hok.
       cbn [scope_stmt otv'] in Hs. fold TB in Hs. fold (branch_out G cond body) in Hs.
-      destruct (branch_derive body H k inl fr true G cond G' Hk He Hok Hs) as (G1 & B1 & B2 & B3 & B4 & B5).
+      rewrite stmt_tree_while in Hso. cbn [stmt_sok] in Hso. destruct Hso as [_ Hso].
+      destruct (branch_derive body H k inl fr true G cond G' Hk He Hok Hso Hs) as (G1 & B1 & B2 & B3 & B4 & B5).
       eapply sok_while; eassumption.
     - (* for *)
       destruct ch; [|exact (match He with end)]. destruct ce; [|exact (match He with end)].
@@ -316,7 +351,8 @@ Section Acc.
       destruct (close_used _ _ Hs) as [Hu' _]. cbn [block_ok] in Hok. apply andb_true_iff in Hok as [Ho1 Ho2].
       eapply (sok_for B F fr G lv r body Gd G1); [| exact Hall | exact Hu | apply body_trees_ne, Hne |].
       + destruct lv as [x|]; [split; [exact Hlv|exact Hd] | injection Hd as <-; reflexivity].
-      + apply (body_derive body H k (true || inl) (fr_push true fr) G1 false false Gend (kf_push k inl fr true Hk) He Ho1 Ho2 Hss Hu').
+      + rewrite stmt_tree_for in Hso. cbn [stmt_sok] in Hso. destruct Hso as (_ & _ & Hso). unfold blk_of in Hso. cbn [block_sok] in Hso. apply stmts_sok_fix in Hso.
+        apply (body_derive body H k (true || inl) (fr_push true fr) G1 false false Gend (kf_push k inl fr true Hk) He Ho1 Ho2 Hso Hss Hu').
     - exact (match He with end).
     - exact (match He with end).
   Qed.
@@ -339,16 +375,16 @@ Section Acc.
   Proof. repeat split. Qed.
 
   Lemma poks_derive : forall body G e Gout, eokb G body ->
-    forallb (stmt_ok KTop false) (body_trees e body) = true ->
+    forallb (stmt_ok KTop false) (body_trees e body) = true -> Forall (stmt_sok B F) (body_trees e body) ->
     scope_stmts TB (body_trees e body) G = Some Gout -> poks B F G e body Gout.
   Proof.
-    induction body as [|x rest IH]; intros G e Gout He Hok Hs.
+    induction body as [|x rest IH]; intros G e Gout He Hok Hso Hs.
     - cbn in Hs. injection Hs as <-. constructor.
-    - cbn [eokb] in He. cbn [body_trees] in Hok, Hs. destruct (is_blank x) eqn:Hb.
-      + rewrite (is_blank_empty x Hb). apply poks_blank. destruct e; eapply IH; eassumption.
-      + destruct He as [Hex He]. cbn [forallb] in Hok. apply andb_true_iff in Hok as [Hok1 Hok2].
+    - cbn [eokb] in He. cbn [body_trees] in Hok, Hs, Hso. destruct (is_blank x) eqn:Hb.
+      + rewrite (is_blank_empty x Hb). apply poks_blank. destruct e; [|inversion Hso; subst]; eapply IH; eassumption.
+      + destruct He as [Hex He]. cbn [forallb] in Hok. apply andb_true_iff in Hok as [Hok1 Hok2]. inversion Hso as [|? ? Hso1 Hso2]; subst.
         cbn [scope_stmts] in Hs. destruct (scope_stmt TB (stmt_tree x) G) as [G'|] eqn:Hsc; [|discriminate Hs]. cbn [obind] in Hs.
-        eapply poks_cons; [exact Hb | exact (derive_all x KTop false top_fr G G' kf_top Hex Hok1 Hsc) | | exact Hsc | eapply IH; eassumption].
+        eapply poks_cons; [exact Hb | exact (derive_all x KTop false top_fr G G' kf_top Hex Hok1 Hso1 Hsc) | | exact Hsc | eapply IH; eassumption].
         rewrite at_st. apply top_no_term, Hok1.
   Qed.
 End Acc.
@@ -359,21 +395,24 @@ Section AccProg.
   Hypothesis BT : forall s t n, b_tyerr B s t n = false.
   Variable fx : fixes.
 
+  (* the builtin table is consistent: a builtin without parameters has arity 0 *)
+  Hypothesis TOK : tbl_ok (builtin_table B).
+
   Theorem program_roundtrip_judged p poss eof :
     p <> [] -> eokb B (builtin_table B) (G0 B) p ->
     structure_ok (body_trees false p) = true ->
+    stmts_sok B (builtin_table B) (body_trees false p) ->
     scope_prog (tabs_of B (builtin_table B)) (body_trees false p) = true ->
-    Forall (fun t => ttype t <> T_ILLEGAL /\ ttype t <> T_FUNC) (toks_of_pieces (fmt_prog fx p)) ->
     List.length poss = List.length (toks_of_pieces (fmt_prog fx p)) ->
     parse B (combine (toks_of_pieces (fmt_prog fx p)) poss) eof = Accept (body_trees false p).
   Proof.
-    intros Hne He Hst Hsc Hlex Hlen.
+    intros Hne He Hst Hso Hsc Hlen.
     unfold structure_ok in Hst. apply andb_true_iff in Hst as [Hst _].
     unfold scope_prog in Hsc. cbn [t_globals tabs_of] in Hsc. fold (G0 B) in Hsc.
     destruct (scope_stmts (tabs_of B (builtin_table B)) (body_trees false p) (G0 B)) as [Gout|] eqn:Hs; [|discriminate Hsc]. cbn [obind] in Hsc.
     destruct (close_scope Gout) as [Gn|] eqn:Hc; [|discriminate Hsc].
     destruct (close_used _ _ Hc) as [Hu _].
-    apply (program_roundtrip B BT fx p Gout poss eof Hne (poks_derive B (builtin_table B) p (G0 B) false Gout He Hst Hs) Hu Hlex Hlen).
+    apply (program_roundtrip B BT fx p Gout poss eof Hne (poks_derive B (builtin_table B) TOK p (G0 B) false Gout He Hst Hso Hs) Hu Hlen).
   Qed.
 
   (* ... which hold whenever some token list (the source, say) is accepted with p's tree and without
@@ -381,13 +420,13 @@ Section AccProg.
   Theorem program_roundtrip_accepted p raw eof0 poss eof :
     parse B raw eof0 = Accept (body_trees false p) -> fn_table B raw = builtin_table B ->
     p <> [] -> eokb B (builtin_table B) (G0 B) p ->
-    Forall (fun t => ttype t <> T_ILLEGAL /\ ttype t <> T_FUNC) (toks_of_pieces (fmt_prog fx p)) ->
     List.length poss = List.length (toks_of_pieces (fmt_prog fx p)) ->
     parse B (combine (toks_of_pieces (fmt_prog fx p)) poss) eof = Accept (body_trees false p).
   Proof.
-    intros Hacc Hfn Hne He Hlex Hlen.
+    intros Hacc Hfn Hne He Hlen.
     apply program_roundtrip_judged; try assumption.
     - exact (accept_structure B raw eof0 _ Hacc).
+    - rewrite <- Hfn. exact (accept_static B raw eof0 _ Hacc).
     - rewrite <- Hfn. exact (accept_scoped B raw eof0 _ Hacc).
   Qed.
 End AccProg.
